@@ -1,12 +1,37 @@
 use crate::common::*;
 
+pub mod c02;
 pub mod c07;
+pub mod c08;
+pub mod c14;
+pub mod c15;
+pub mod c16;
+pub mod c17;
+pub mod c20;
+pub mod hung;
 pub mod c19;
 
 pub fn dispatch(id: &str, tier: Tier, replay: Option<&str>) -> i32 {
     let _ = replay;
     let rep = match id {
+        "C02" => {
+            let rep = Report::new("C02", tier);
+            rep.set_rule("(a) every weight matrix for <= 3 candidates x <= 3 tracks over a grid straddling the threshold (quick: 4 values for 3x3, 7 below; thorough: 7 values), thresholds 0.3 and 1.0, declared sizes exact and larger, every arrival order for <= 2x2 (three orders above), plus permutation-matrix and greedy-trap families up to 8x8: SortVoting::winners judged against an exact bitmask-DP optimum in the implementation's micro-units.");
+            c02::run_a(&rep, tier);
+            rep
+        }
         "C07" => c07::run(tier),
+        "C08" => c08::run(tier),
+        "C14" => c14::run(tier),
+        "C15" => c15::run(tier),
+        "C16" => c16::run(tier),
+        "C17" => c17::run(tier),
+        "C20" => {
+            let rep = Report::new("C20", tier);
+            rep.set_rule("every ordered table of <= 3 (thorough 4) entries over gaps 0..=8 x limits {.5,1,2}, every split into two add_constraints calls, every probe (gap 0..=9 x 8 distances): reference = first configured limit of the smallest configured gap >= d; monotone in distance");
+            c20::run_tables(&rep, tier);
+            rep
+        }
         "C19" => c19::run(tier),
         _ => machinery_error(&format!("no check for property {id}")),
     };
